@@ -230,7 +230,10 @@ func runCgf(t []string) string {
 			cgf.CGFEnable = true
 			var wg sync.WaitGroup
 			wg.Add(1)
-			if cgf.OpenServer(context.Background(), &wg) == nil {
+			unlockCfg := lockCgfConfig()
+			opened := cgf.OpenServer(context.Background(), &wg)
+			unlockCfg()
+			if opened == nil {
 				return "failed:OpenServer"
 			}
 			cgfOpened = true
